@@ -77,6 +77,12 @@ CHECKS = {
          "wkt/wkb/serde_json crates used as decoders; state vector slot order normalised when comparing two builds", "3.20"),
 }
 
+SHIPPED = ["C01", "C02", "C03", "C05", "C06", "C08", "C15", "C16", "C17", "C20"]
+EXTRA = {
+ "C10": " One query in five of the limit sweep is edge-oriented.",
+ "C11": " One case in 2000 builds an application from generated TOML and checks the state model of SearchApp::build_search_instance under per-query state_features overrides (slots, initial values in the query's units, named updates).",
+ "C13": " One world in five restricts edges (road classes, vehicle restrictions, combined): reachability and least cost are judged on the permitted edges and every returned route must keep to them.",
+}
 NOT_YET = "monitor not built yet in this round of work (planned in DESIGN.md section 3); no claim is made"
 ALL = ["C%02d" % i for i in range(1, 21)]
 
@@ -89,6 +95,10 @@ def main():
             na.append({"property_id": pid, "reason": NOT_YET})
             continue
         _, technique, text, note, ref = c
+        if pid in SHIPPED:
+            text += " A shipped-configuration slice drives the repository's own example network (downtown Denver, gzip tables) under the shipped osm_default_*.toml files exactly as a user gets them and applies this property's clauses to the responses against the monitor's own reading of the files (DESIGN.md section 7)."
+            technique += "; the same oracle over the repository's shipped example network and configurations"
+        text += EXTRA.get(pid, "")
         checks.append({
             "property_id": pid,
             "quick_cmd": f"./check {pid} quick",
